@@ -219,11 +219,33 @@ func indexConflict(a *Abs) bool {
 	return false
 }
 
+// snapshotConflict: the HEAD snapshot (committed from such a staging area) holds both "x" and "x/y".
+func snapshotConflict(a *Abs) bool {
+	tip := a.Tip()
+	if tip == "" {
+		return false
+	}
+	snap, err := a.Snapshot(tip)
+	if err != nil {
+		return false
+	}
+	for p := range snap {
+		for i := 0; i < len(p); i++ {
+			if p[i] == '/' {
+				if _, ok := snap[p[:i]]; ok {
+					return true
+				}
+			}
+		}
+	}
+	return false
+}
+
 func Allowed(a *Abs, st Step) []Out {
 	if st.Op != "run" || len(st.Args) == 0 {
 		return nil
 	}
-	if indexConflict(a) {
+	if indexConflict(a) || snapshotConflict(a) {
 		return nil
 	}
 	args := st.Args[1:]
